@@ -350,7 +350,7 @@ class OrderInterp:
 
     def _sub(self, e: ast.Subscript) -> Tag:
         base = self.tag(e.value)
-        self.tag(e.slice) if not isinstance(e.slice, ast.Slice) else None
+        sltag = self.tag(e.slice) if not isinstance(e.slice, ast.Slice) else None
         bk = self.kind(e.value)
         seq = bk[0] in SEQ_KINDS or base.kind in ("rows", "sorted")
         sl = e.slice
@@ -362,6 +362,10 @@ class OrderInterp:
                 self.site("reduction", f".iloc[{self.txt(sl)}]", e, [recv.value])
                 return SCALAR
             return base
+        if base.kind == "argsort" and not isinstance(sl, ast.Slice) and recv is e.value:
+            # the k-th entry of a sorting permutation is the position of the k-th smallest value: which row that is does not
+            # depend on the order the rows came in (as far as the sort key decides)
+            return base
         if seq and self._is_end_index(sl) and bk[0] not in ("dict", "str", "tuple"):
             self.site("reduction", f"[{self.txt(sl)}]", e, [e.value])
             return SCALAR
@@ -369,8 +373,8 @@ class OrderInterp:
             return base
         if isinstance(sl, ast.Constant) and isinstance(sl.value, str):
             return Tag(base.kind, base.base, base.key, sl.value) if base.kind in ("rows", "sorted") else base
-        if isinstance(sl, ast.Name) and self.env.get(sl.id, TOP).kind == "argsort":
-            p = self.env[sl.id]
+        if sltag is not None and sltag.kind == "argsort":
+            p = sltag
             return Tag("sorted", base.base or self.txt(e.value), "value" + p.key)
         if isinstance(sl, ast.Constant) and isinstance(sl.value, int) and bk[0] in ("tuple", "dict", "str", "unknown"):
             return TOP if base.kind == "top" else base
